@@ -11,10 +11,10 @@ INV_ALL = ("TypeOK DepsBeforeRun RunningBound WorkerPopulation StateReportOK Ong
 
 
 def sched_cfg(maxj, maxn, g, coes, cancel, outcomes, dup=False, inv=INV_ALL, props="Terminates Refines",
-              deadlock=True, gated=True):
-    return ("CONSTANTS MaxJ = %d  MaxN = %d  G = %d  COES = {%s}  CANCEL = %s  GATED = %s  DUPDEPS = %s\n"
+              deadlock=True, gated=True, ctx2=False):
+    return ("CONSTANTS MaxJ = %d  MaxN = %d  G = %d  COES = {%s}  CANCEL = %s  GATED = %s  DUPDEPS = %s  CTX2 = %s\n"
             "OUTCOMES = {%s}\nSPECIFICATION Spec\nINVARIANTS %s\n%sCHECK_DEADLOCK %s\n" % (
-                maxj, maxn, g, ", ".join(coes), str(cancel).upper(), str(gated).upper(), str(dup).upper(),
+                maxj, maxn, g, ", ".join(coes), str(cancel).upper(), str(gated).upper(), str(dup).upper(), str(ctx2).upper(),
                 ", ".join('"%s"' % o for o in outcomes), inv,
                 ("PROPERTIES %s\n" % props) if props else "", str(deadlock).upper()))
 
@@ -27,6 +27,9 @@ SPEC_CFGS = {
     "q_exit": sched_cfg(3, 2, 3, ["TRUE", "FALSE"], False, ["ok", "goexit"]),
     "q_can":  sched_cfg(3, 2, 0, ["TRUE", "FALSE"], False, ["ok", "cancel"]),
     "q_dup":  sched_cfg(3, 2, 0, ["TRUE", "FALSE"], False, ["ok", "err"], dup=True, props="Refines"),
+    # two contexts: jobs enqueued with a context of their own, cancelled independently of Wait's
+    "q_ctx2": sched_cfg(3, 2, 0, ["FALSE"], True, ["ok"], ctx2=True, props="Refines"),
+    "t_ctx2": sched_cfg(3, 2, 3, ["TRUE", "FALSE"], True, ["ok", "err", "goexit"], ctx2=True),
     # thorough configurations
     "t_ff4":  sched_cfg(4, 2, 0, ["FALSE"], False, ["ok", "err"]),
     "t_coe4": sched_cfg(4, 2, 0, ["TRUE"], False, ["ok", "err"]),
@@ -35,7 +38,7 @@ SPEC_CFGS = {
     "t_all3": sched_cfg(3, 2, 3, ["TRUE", "FALSE"], True, ["ok", "err", "goexit", "cancel"], dup=True),
 }
 
-SIM_CFG = """CONSTANTS MaxJ = %d  MaxN = %d  G = 6  COES = {TRUE, FALSE}  CANCEL = %s  GATED = TRUE  DUPDEPS = TRUE
+SIM_CFG = """CONSTANTS MaxJ = %d  MaxN = %d  G = 6  COES = {TRUE, FALSE}  CANCEL = %s  GATED = TRUE  DUPDEPS = TRUE  CTX2 = TRUE
 OUTCOMES = {%s}
 INIT SimInit
 NEXT SimNext
@@ -109,7 +112,7 @@ def validate_api(c, api_file, name):
 
 
 def hook_cfg(path, maxj, maxn, g):
-    return ('CONSTANTS MaxJ = %d  MaxN = %d  G = %d  COES = {FALSE}  CANCEL = TRUE  GATED = TRUE  DUPDEPS = FALSE\n'
+    return ('CONSTANTS MaxJ = %d  MaxN = %d  G = %d  COES = {FALSE}  CANCEL = TRUE  GATED = TRUE  DUPDEPS = FALSE  CTX2 = TRUE\n'
             'OUTCOMES = {"ok"}\nTraceFile = "%s"\nSPECIFICATION TSpec\n'
             'INVARIANTS DepsBeforeRun RunningBound StateReportOK OngoingBound Ownership\nCHECK_DEADLOCK FALSE\n'
             % (maxj, maxn, g, path))
@@ -193,7 +196,9 @@ def conformance(c, batches, hooks=True, hook_limit=None):
                             dict(kind="sched-run", batch=name, spec=specs.get(run)))
         hk = os.path.join(out, "hook.json")
         if hooks and os.path.exists(hk):
-            acc, rej, skipped = validate_hooks(c, hk, name, limit=hook_limit)
+            # the interleaving search is expensive for runs in which many workers die and are replaced
+            lim = min(hook_limit or 10**9, 20) if name == "capacity" else hook_limit
+            acc, rej, skipped = validate_hooks(c, hk, name, limit=lim)
             c.cov["hook_traces_accepted"] = c.cov.get("hook_traces_accepted", 0) + acc
             c.cov["traces_validated_against_impl"] += acc
             for rj in rej:
